@@ -37,7 +37,7 @@ From Coq Require Import List Bool Arith NArith Permutation String Relations.
 From Coq Require Sorting.Sorted.
 From Atlas Require Import Base.Bytes Plan.SortModel Dir.DirModel.
 From Atlas Require Import Det.Census Det.OrderModel Det.OrderIndep Det.SortMapCycle Det.EvalRefs Det.CensusCovered gen.Gen_MapRanges.
-From Atlas Require Import Det.QualifyModel Det.QualifyProofs Det.PkgState Det.PkgStateCovered gen.Gen_PkgState.
+From Atlas Require Import Det.QualifyModel Det.QualifyProofs Det.QualifyClosure Det.PkgState Det.PkgStateCovered gen.Gen_PkgState.
 Import ListNotations.
 
 (** * Census *)
@@ -372,7 +372,9 @@ Example C20_QualifyObjects_ex :
 Proof. vm_compute. reflexivity. Qed.
 
 (** Round 5: QualifyObjects with its concrete bucket effect (Det/QualifyModel.v: SetQualifier on the
-    objects of the bucket, schemas[q] = true; then pass 3 over the slice).  No premise left: for ANY
+    objects of the bucket, schemas[q] = true; then pass 3 over the slice -- ONE round: the code before
+    fix C20-qualify-pass3-not-closed; the fixed code is modelled in Det/QualifyClosure.v, theorems
+    C20_qualify_closed_* / C20_qualify_unambiguous below).  No premise left: for ANY
     order in which the two map ranges deliver byLabel and its inner maps, the qualifier of every
     object is [qualifier_spec specs o] -- a boolean function of the object and the multiset of
     (schema, label) pairs. *)
@@ -451,48 +453,140 @@ Example C20_qualify_references_ex :
   /\ QualifyReferences_ref (QualifyObjects_go specs) (QO 2 12) = RefMissing.
 Proof. vm_compute. split; reflexivity. Qed.
 
-(* REFUTED: "after QualifyObjects no block written with one label carries a name that another block
-   uses as its qualifier".  The last loop qualifies s2.s1 (label = the qualifier s1) with s2 but does
-   not add s2 to the set it consults: s2.s2 stays [table "s2"] next to [table "s2" "s1"].
-   Reproduced on the real code (found by the thorough tier): the document does not evaluate
-   (oracle class qualify-roundtrip, known finding C20-qualify-pass3-not-closed). *)
-Theorem C20_qualify_unambiguous_refuted :
+(** AFTER fix C20-qualify-pass3-not-closed the last loop of QualifyObjects records the schema of every object
+    it qualifies as a qualifier and repeats until nothing changes (Det/QualifyClosure.v: [pass3c_step],
+    [pass3_closure] with fuel S (number of objects), [QualifyObjects_closed_over]); this is the model
+    the tie (kinds qo, qr) runs.  [QualifyObjects_over] above is the code BEFORE that fix (one round). *)
+
+(* the fuel is enough: the loop always ends in a round that changed nothing *)
+Theorem C20_qualify_closure_fuel : forall specs st, Inv specs st ->
+  exists st0, Inv specs st0 /\ snd (pass3_round specs st0) = false /\
+              pass3_closure (S (List.length specs)) specs st = fst (pass3_round specs st0).
+Proof. exact pass3_closure_fuel. Qed.
+Print Assumptions C20_qualify_closure_fuel.
+
+(* for every order of both maps: an object is qualified (with its schema) exactly when another
+   schema holds its label or its label is a qualifier -- [usedP]: the least set containing the
+   schemas of same-named objects and closed under "an object labelled with a qualifier makes its
+   own schema a qualifier" *)
+Theorem C20_qualify_closed_map_order_irrelevant : forall specs bl, map_order bl (byLabel specs) ->
+  forall o, In o specs ->
+    (qualifiedP specs o -> In (o, Some (q_schema o)) (QualifyObjects_closed_over bl specs)) /\
+    (~ qualifiedP specs o -> In (o, None) (QualifyObjects_closed_over bl specs)) /\
+    (forall q, In (o, q) (QualifyObjects_closed_over bl specs) ->
+       (qualifiedP specs o /\ q = Some (q_schema o)) \/ (~ qualifiedP specs o /\ q = None)).
+Proof. exact QualifyObjects_closed_spec. Qed.
+Print Assumptions C20_qualify_closed_map_order_irrelevant.
+
+(* goal (a) for the fixed code: schemas / tables in another order, maps in any order: same multiset *)
+Theorem C20_qualify_closed_order_independent : forall specs specs' bl bl',
+  Permutation specs specs' ->
+  map_order bl (byLabel specs) -> map_order bl' (byLabel specs') ->
+  Permutation (QualifyObjects_closed_over bl specs) (QualifyObjects_closed_over bl' specs').
+Proof. exact QualifyObjects_closed_order_independent. Qed.
+Print Assumptions C20_qualify_closed_order_independent.
+
+Theorem C20_qualify_references_closed_order_independent : forall specs specs' bl bl' target,
+  Permutation specs specs' ->
+  map_order bl (byLabel specs) -> map_order bl' (byLabel specs') ->
+  QualifyReferences_ref (QualifyObjects_closed_over bl specs) target =
+  QualifyReferences_ref (QualifyObjects_closed_over bl' specs') target.
+Proof.
+  exact (fun specs specs' bl bl' target P M M' =>
+    let PQ := QualifyObjects_closed_order_independent specs specs' bl bl' P M M' in
+    f_equal2 (fun a b : bool => if a then RefQualified (q_schema target) (q_label target)
+                                else if b then RefPlain (q_label target) else RefMissing)
+      (byRef_has_perm _ _ (Some (q_schema target)) (q_label target) PQ)
+      (byRef_has_perm _ _ None (q_label target) PQ)).
+Qed.
+Print Assumptions C20_qualify_references_closed_order_independent.
+
+(* the reference to a table of the realm is qualified exactly when the table's block is, and the
+   keys of byRef are pairwise distinct -- for the fixed QualifyObjects *)
+Theorem C20_qualify_references_closed_match_blocks : forall specs bl target,
+  map_order bl (byLabel specs) -> In target specs ->
+  (qualifiedP specs target ->
+     QualifyReferences_ref (QualifyObjects_closed_over bl specs) target = RefQualified (q_schema target) (q_label target)) /\
+  (~ qualifiedP specs target ->
+     QualifyReferences_ref (QualifyObjects_closed_over bl specs) target = RefPlain (q_label target)).
+Proof. exact QualifyReferences_closed_ref_spec. Qed.
+Print Assumptions C20_qualify_references_closed_match_blocks.
+Theorem C20_qualify_references_closed_no_duplicate : forall specs bl,
+  map_order bl (byLabel specs) -> NoDup specs ->
+  NoDup (map byRef_key (QualifyObjects_closed_over bl specs)).
+Proof. exact QualifyReferences_closed_no_duplicate. Qed.
+Print Assumptions C20_qualify_references_closed_no_duplicate.
+Example C20_qualify_references_closed_ex :
+  map (QualifyReferences_ref (QualifyObjects_closed_go [QO 1 10; QO 2 1; QO 2 2; QO 3 10])) [QO 2 1; QO 2 2; QO 3 10]
+  = [RefQualified 2 1; RefQualified 2 2; RefQualified 3 10].
+Proof. vm_compute. reflexivity. Qed.
+
+(* "No block written with one label carries a name that another block uses as its qualifier":
+   true of the fixed code (it was refuted for the code before the fix, below). *)
+Theorem C20_qualify_unambiguous : forall specs bl, map_order bl (byLabel specs) ->
+  forall o o' q, In (o, None) (QualifyObjects_closed_over bl specs) ->
+                 In (o', Some q) (QualifyObjects_closed_over bl specs) -> q_label o <> q.
+Proof. exact QualifyObjects_closed_unambiguous. Qed.
+Print Assumptions C20_qualify_unambiguous.
+Example C20_qualify_closed_ex :
+  QualifyObjects_closed_go [QO 1 10; QO 2 1; QO 2 2; QO 3 10]
+  = [(QO 1 10, Some 1); (QO 2 1, Some 2); (QO 2 2, Some 2); (QO 3 10, Some 3)]
+  /\ ambiguousb (QualifyObjects_closed_go [QO 1 10; QO 2 1; QO 2 2; QO 3 10]) = false
+  /\ QualifyObjects_closed_go [QO 1 10; QO 2 10; QO 3 1; QO 3 11] = QualifyObjects_go [QO 1 10; QO 2 10; QO 3 1; QO 3 11]
+  /\ QualifyObjects_closed_over (rev (byLabel [QO 2 2; QO 2 1; QO 3 10; QO 1 10])) [QO 2 2; QO 2 1; QO 3 10; QO 1 10]
+     = [(QO 2 2, Some 2); (QO 2 1, Some 2); (QO 3 10, Some 3); (QO 1 10, Some 1)].
+Proof. vm_compute. repeat split; reflexivity. Qed.
+
+(* BEFORE the fix: the last loop qualified s2.s1 (label = the qualifier s1) with s2 but did not add s2
+   to the set it consults: s2.s2 stayed [table "s2"] next to [table "s2" "s1"] and the document did
+   not evaluate (oracle class qualify-roundtrip, known finding C20-qualify-pass3-not-closed, reproduced
+   on the unpatched tree). *)
+Theorem C20_qualify_unambiguous_before_fix_refuted :
   exists specs, NoDup specs /\ ambiguousb (QualifyObjects_go specs) = true.
 Proof. exact qualify_unambiguous_refuted. Qed.
-Print Assumptions C20_qualify_unambiguous_refuted.
-(* what the last loop does guarantee: no unqualified object is labelled like the schema of an
-   object qualified because of a same-named object in another schema *)
-Theorem C20_qualify_unambiguous_except : forall specs o o',
+Print Assumptions C20_qualify_unambiguous_before_fix_refuted.
+Theorem C20_qualify_unambiguous_before_fix_except : forall specs o o',
   qualifier_spec specs o = None -> In o' specs -> conflictb specs o' = true -> q_label o <> q_schema o'.
 Proof. exact qualify_unambiguous_except. Qed.
-Print Assumptions C20_qualify_unambiguous_except.
-Example C20_qualify_unambiguous_ex :
+Print Assumptions C20_qualify_unambiguous_before_fix_except.
+Example C20_qualify_unambiguous_before_fix_ex :
   ambiguousb (QualifyObjects_go [QO 1 10; QO 2 10; QO 3 1; QO 3 11]) = false /\
   QualifyObjects_go [QO 1 10; QO 2 1; QO 2 2; QO 3 10]
   = [(QO 1 10, Some 1); (QO 2 1, Some 2); (QO 2 2, None); (QO 3 10, Some 3)].
 Proof. vm_compute. split; reflexivity. Qed.
 
-(* REFUTED: "a reference to an object carries a qualifier exactly when the object's block does".
-   specutil.ObjectRef only applies the pass-2 condition (same name in another schema); an object
-   named like a schema whose name became a qualifier is written [enum "s3" "s1"] by pass 3 but
-   referred to as [enum.s1].  Reproduced on the real code: postgres.MarshalHCL of such a realm gives
-   a document whose column type refers to a block it does not contain (oracle class
-   qualify-dangling-ref, known finding C20-qualify-objectref-schema-named). *)
-Theorem C20_ObjectRef_matches_qualifier_refuted :
-  exists specs o, In o specs /\ ObjectRef_qualified specs o = false /\ qualifier_spec specs o = Some (q_schema o).
-Proof. exact ObjectRef_qualified_refuted. Qed.
-Print Assumptions C20_ObjectRef_matches_qualifier_refuted.
-(* what does hold: a qualified reference always points to a qualified block, and the two agree
-   whenever the object's label is not the name of a schema used as a qualifier *)
-Theorem C20_ObjectRef_matches_qualifier_except : forall specs o,
-  (ObjectRef_qualified specs o = true -> qualifier_spec specs o = Some (q_schema o)) /\
-  (schema_used specs (q_label o) = false ->
-   (ObjectRef_qualified specs o = true <-> qualifier_spec specs o <> None)).
-Proof. exact (fun specs o => conj (ObjectRef_qualified_sound specs o) (ObjectRef_qualified_except specs o)). Qed.
-Print Assumptions C20_ObjectRef_matches_qualifier_except.
+(* "A reference to an object carries a qualifier exactly when the object's block does."  True of
+   specutil.ObjectRef since fix C20-qualify-objectref-schema-named (ObjectRef applies both conditions
+   of QualifyObjects: objectConflict || qualifierSchema). *)
+Theorem C20_ObjectRef_matches_qualifier : forall specs o,
+  (ObjectRef_qualified specs o = true <-> qualifier_spec specs o = Some (q_schema o)) /\
+  (ObjectRef_qualified specs o = false <-> qualifier_spec specs o = None).
+Proof. exact ObjectRef_qualified_matches. Qed.
+Print Assumptions C20_ObjectRef_matches_qualifier.
 Example C20_ObjectRef_ex :
-  ObjectRef_qualified [QO 1 10; QO 2 10; QO 3 1] (QO 1 10) = true /\
-  ObjectRef_qualified [QO 1 10; QO 2 10; QO 3 1] (QO 3 1) = false.
+  ObjectRef_qualified [QO 1 10; QO 2 10; QO 3 1; QO 3 11] (QO 1 10) = true /\
+  ObjectRef_qualified [QO 1 10; QO 2 10; QO 3 1; QO 3 11] (QO 3 1) = true /\
+  ObjectRef_qualified [QO 1 10; QO 2 10; QO 3 1; QO 3 11] (QO 3 11) = false.
+Proof. vm_compute. repeat split; reflexivity. Qed.
+
+(* BEFORE the fix ObjectRef only applied the pass-2 condition (same name in another schema): an
+   object named like a schema whose name became a qualifier was written [enum "s3" "s1"] by the last
+   loop of QualifyObjects but referred to as [enum.s1] (oracle class qualify-dangling-ref, known finding
+   C20-qualify-objectref-schema-named, reproduced on the unpatched tree).  Kept because
+   TableSpecRef / ViewSpecRef still have that shape (not reached by the OSS marshalers). *)
+Theorem C20_ObjectRef_before_fix_refuted :
+  exists specs o, In o specs /\ ObjectRef_qualified_before_fix specs o = false /\ qualifier_spec specs o = Some (q_schema o).
+Proof. exact ObjectRef_qualified_before_fix_refuted. Qed.
+Print Assumptions C20_ObjectRef_before_fix_refuted.
+Theorem C20_ObjectRef_before_fix_except : forall specs o,
+  (ObjectRef_qualified_before_fix specs o = true -> qualifier_spec specs o = Some (q_schema o)) /\
+  (schema_used specs (q_label o) = false ->
+   (ObjectRef_qualified_before_fix specs o = true <-> qualifier_spec specs o <> None)).
+Proof. exact (fun specs o => conj (ObjectRef_qualified_before_fix_sound specs o) (ObjectRef_qualified_before_fix_except specs o)). Qed.
+Print Assumptions C20_ObjectRef_before_fix_except.
+Example C20_ObjectRef_before_fix_ex :
+  ObjectRef_qualified_before_fix [QO 1 10; QO 2 10; QO 3 1] (QO 1 10) = true /\
+  ObjectRef_qualified_before_fix [QO 1 10; QO 2 10; QO 3 1] (QO 3 1) = false.
 Proof. vm_compute. split; reflexivity. Qed.
 
 (** * sql/postgres *)
